@@ -4,7 +4,7 @@ from rules.rfs import *
 
 LEVEL = "other"
 MIN_OBLIGATIONS = 14
-TECHNIQUE = "CFG must-pass/dominance rules on RotatingFileSink::send and IODeviceSink::send, constant-folded open flags, who-may-call allow-list of destructive file operations scoped by call-graph reachability with def-use provenance of their arguments; hand-over rule (close/flush dominates rename and compression), max+1 index rule and writer/reader name-scheme agreement shared with C09, binary-mode rule; single-pass rule for .arg() chains (nothing substituted before the last call can contain a placeholder); CRC-32 of the gzip trailer decided by evaluation (shared with C08)"
+TECHNIQUE = "CFG must-pass/dominance rules on RotatingFileSink::send and IODeviceSink::send, constant-folded open flags, who-may-call allow-list of destructive file operations scoped by call-graph reachability with def-use provenance of their arguments; hand-over rule (close/flush dominates rename and compression), max+1 index rule and writer/reader name-scheme agreement shared with C09, binary-mode rule; single-pass rule for .arg() chains (nothing substituted before the last call can contain a placeholder); CRC-32 of the gzip trailer decided by evaluation (shared with C08); the per-date name pattern is built from the date asked for (a member cache filled under a guard that does not compare dates is stale, unless every writer of the file date drops it); who-may-call rule: no symbolic-link resolution of the configured path in the rotating sink"
 LEVEL_TEXT = ("Decides the history-independent write/rotate protocol on all paths: every send initialises, rotates if needed and then writes the record exactly once as one buffer ending in "
               "one newline; rotate() always reopens the active file in append mode without truncation; the only calls that can destroy file data reachable from the sink's entry points "
               "are the three sanctioned ones with sanctioned arguments; rotation code never writes record bytes. Byte-for-byte equality over histories is run-time and not decided.")
